@@ -13,6 +13,7 @@ package allocation
 //@ spec func permsWF(a *Allocation) bool = forall k :: haskey(a.permissions, k) ==> valat(a.permissions, k) != nil
 //@ spec func allocWF(a *Allocation) bool = a.fiveTuple != nil && a.log != nil && a.permissions != nil && permsWF(a) && chansWF(a)
 
+//@ spec func chanPeersNonNil(a *Allocation) bool = forall i :: 0 <= i && i < len(a.channelBindings) ==> a.channelBindings[i].Peer != nil
 //@      // ---- abstract views used by the properties
 //@ spec func hasPerm(a *Allocation, addr net.Addr) bool = has(a.permissions, ipKey(addr))
 //@ spec func boundPeer(a *Allocation, addr net.Addr) bool = exists i :: 0 <= i && i < len(a.channelBindings) && a.channelBindings[i].Peer == addr
@@ -26,6 +27,7 @@ package allocation
 //@   pure
 //@   ensures [C01,C08:found] res != nil ==> exists i :: 0 <= i && i < len(a.channelBindings) && a.channelBindings[i] == res && res.Number == number
 //@   ensures [C01,C08:absent] res == nil ==> forall i :: 0 <= i && i < len(a.channelBindings) ==> a.channelBindings[i].Number != number
+//@   ensures res != nil && chanPeersNonNil(a) ==> res.Peer != nil
 //@   loop 0 invariant -1 <= rangeindex && rangeindex < len(a.channelBindings) && chansWF(a)
 //@   loop 0 invariant forall j :: 0 <= j && j <= rangeindex ==> a.channelBindings[j].Number != number
 //@   loop 0 decreases len(a.channelBindings) - rangeindex
@@ -98,7 +100,7 @@ package allocation
 //@   assigns entries(a.permissions), perms.allocation, perms.lifetimeTimer, timers
 
 //@      // ---- channel bindings (C07, C08). chanInv is the one-to-one invariant of the property.
-//@ spec func chanTimers(a *Allocation) bool = forall i :: 0 <= i && i < len(a.channelBindings) ==> a.channelBindings[i].lifetimeTimer != nil && a.channelBindings[i].log != nil && a.channelBindings[i].allocation == a
+//@ spec func chanTimers(a *Allocation) bool = forall i :: 0 <= i && i < len(a.channelBindings) ==> a.channelBindings[i].lifetimeTimer != nil && a.channelBindings[i].log != nil && a.channelBindings[i].allocation == a && a.channelBindings[i].Peer != nil
 //@ spec func chanNumsUnique(a *Allocation) bool = forall i, j :: 0 <= i && i < len(a.channelBindings) && 0 <= j && j < len(a.channelBindings) && i != j ==> a.channelBindings[i].Number != a.channelBindings[j].Number
 //@ spec func chanPeersUnique(a *Allocation) bool = forall i, j :: 0 <= i && i < len(a.channelBindings) && 0 <= j && j < len(a.channelBindings) && i != j ==> !addrEqual(a.channelBindings[i].Peer, a.channelBindings[j].Peer)
 //@ spec func chanRange(a *Allocation) bool = forall i :: 0 <= i && i < len(a.channelBindings) ==> validChan(int(a.channelBindings[i].Number))
@@ -146,7 +148,7 @@ package allocation
 
 //@ func (*Allocation).AddChannelBind
 //@   requires allocWF(a) && permTimers(a) && chanTimers(a) && timersDisjoint(a)
-//@   requires chanBind != nil && chanBind.log != nil && chanBind.lifetimeTimer == nil
+//@   requires chanBind != nil && chanBind.log != nil && chanBind.lifetimeTimer == nil && chanBind.Peer != nil
 //@   requires [C08:valid-number] validChan(int(chanBind.Number))
 //@   requires [C03:authed] authOK && a.userID == authUser
 //@   requires [C01:granted] granted[ipKey(chanBind.Peer)]
@@ -158,9 +160,10 @@ package allocation
 //@   ensures [C08:nums-unique] old(chanNumsUnique(a)) ==> chanNumsUnique(a)
 //@   ensures [C08:peers-unique] old(chanPeersUnique(a)) ==> chanPeersUnique(a)
 //@   ensures [C08:range] old(chanRange(a)) ==> chanRange(a)
-//@   ensures [C07:chan-timer] res == nil ==> exists i :: 0 <= i && i < len(a.channelBindings) && a.channelBindings[i].Number == chanBind.Number && (a.channelBindings[i] == chanBind || addrEqual(a.channelBindings[i].Peer, chanBind.Peer)) && timerSet(a.channelBindings[i].lifetimeTimer, channelLifetime)
+//@   ensures [C07:chan-timer-new] res == nil && old(forall i :: 0 <= i && i < len(a.channelBindings) ==> a.channelBindings[i].Number != chanBind.Number) ==> len(a.channelBindings) == old(len(a.channelBindings)) + 1 && a.channelBindings[len(a.channelBindings)-1] == chanBind && timerSet(chanBind.lifetimeTimer, channelLifetime)
+//@   ensures [C07:chan-timer-refresh] res == nil && old(chanNumsUnique(a)) ==> forall i :: 0 <= i && i < len(a.channelBindings) && a.channelBindings[i].Number == chanBind.Number ==> timerSet(a.channelBindings[i].lifetimeTimer, channelLifetime)
 //@   ensures [C07:perm-timer] res == nil ==> has(a.permissions, ipKey(chanBind.Peer)) && timerSet(a.permissions[ipKey(chanBind.Peer)].lifetimeTimer, permissionLifetime)
-//@   ensures allocWF(a) && permTimers(a) && chanTimers(a) && timersDisjoint(a)
+//@   ensures allocWF(a) && permTimers(a) && chanTimers(a) && timersDisjoint(a) && chansWF(a) && chanPeersNonNil(a)
 //@   assigns a.channelBindings, mem(a.channelBindings), chanBind.allocation, chanBind.lifetimeTimer, entries(a.permissions), timers
 
 //@      // ---- 5-tuple identity (C04): the fingerprint is the 16-byte form of both IPs, both ports (mod 2^16) and the protocol
